@@ -23,7 +23,11 @@ def scale(tier, q, t):
 def c01(c):
     build_both()
     c.mc(toy_cfgs(["point", "field", "bytes"], c.tier) + session_cfgs(c.tier))
+    plan, n = gen_plan("DecodePlan.tla", "cfg/DecodePlan.cfg", "dec")
+    c.notes.append("DecodePlan: %d strings enumerated by TLC (near misses of 6 base encodings, absolute edge values, the first valid "
+                   "encodings below/above the modulus and every limb boundary) round-tripped in both directions" % n)
     for b in ("ark", "min"):
+        c.trace(b, "rtfile", 0, plan)
         c.trace(b, "prog", scale(c.tier, 60, 1200), 40)
         c.trace(b, "rt2rand", scale(c.tier, 1500, 30000))
         c.trace(b, "rt2near", scale(c.tier, 60, 1500))
